@@ -564,7 +564,16 @@ class Fn:
                     continue
                 a = bind[root]
                 if v.name == root:
-                    actuals.append(self.expr(a))
+                    try:
+                        actuals.append(self.expr(a))
+                    except Unsupported:
+                        # `&path' of a struct-typed object (`&my_src->timerlist') handed to a translated callee: the
+                        # pointer value itself is an opaque input <path>_ptr; what the callee reads and writes through
+                        # it is re-rooted at <path> below, like for any other pointer argument
+                        b = self.path_of(a)
+                        if b[1] is not None or b[3] is not None:
+                            raise
+                        actuals.append(self.add_input(Var(b[0] + "_ptr", "Z")).name)
                     continue
                 base = self.path_of(a)
                 if base[1] is not None:
